@@ -27,7 +27,8 @@ RULE = ("full matrix of metadata_path {absent, given} x memory_cache_mb {absent,
         "; round 12: the read-only flag written in YAML's other boolean spellings"
         '; round 13: repositories built with an explicit clusters argument'
         '; round 14: configuration files addressed absolutely / by bare name / by relative path'
-        '; round 15: repositories that share a name in resolution histories')
+        '; round 15: repositories that share a name in resolution histories'
+        '; round 16: explicit but empty clusters= / repos= arguments')
 ASSUMPTIONS = ["behaviour, not attributes, is compared: where files appear, whether reads of 3 value sizes hit a "
                "cache, whether writes happen, whether forget is rejected, whether a body runs"]
 TIMEOUT = 600
